@@ -378,7 +378,7 @@ def gen_hists(ctx, scale):
     srcn = [0]
     geos = [("DE", 64501), ("FR", 64502), ("US", 64500), ("", 64503), ("unk", 64504), ("BR", 64501)]
 
-    def conn(kind, at, geo=None, phantom=None, peer=None, t_end=None, first=150):
+    def conn(kind, at, geo=None, phantom=None, peer=None, t_end=None, first=150, mid=None):
         regs, n, end = HKINDS[kind]
         srcn[0] += 1
         k = srcn[0]
@@ -410,6 +410,8 @@ def gen_hists(ctx, scale):
         if end:
             c["fin_ms"] = t_end or 900
             c["fin_rst"] = end == "rst"
+        c["mid_epoch"] = mid or []
+        c["geo_err"] = ""
         return c
 
     for _ in range(scale):
@@ -424,6 +426,25 @@ def gen_hists(ctx, scale):
                      conn("silent-timeout", rng.randrange(150, 300), geo=geo, phantom=fam),
                      conn(rng.choice(["data-timeout", "noregs-data-timeout"]), rng.randrange(750, 1000))]
             hists.append({"class": kind + "-across-epoch", "conns": conns, "epochs": [e1, rng.randrange(1600, 3000), rng.randrange(3200, 4600)], "hammer": False})
+        # an epoch forced INSIDE the handler's check window (after x->Check, before Check->y), for the Read that
+        # is the first one, a later one, the one on which the last transport gives up, and the one that matches
+        for kind, mids in (("data-timeout", [0]), ("data-fin", [0, 1]), ("exhaust-timeout", [1, 2]), ("exhaust-rst", [0, 2]), ("match", [0])):
+            geo = geos[rng.randrange(3)]
+            conns = [conn(kind, 0, geo=geo, t_end=rng.randrange(1200, 2000), mid=mids, peer=rng.choice([0, 2, 3])),
+                     conn("silent-timeout", rng.randrange(0, 100), geo=geo),
+                     conn("data-timeout", rng.randrange(0, 100), geo=geo, mid=[0] if kind == "match" else [])]
+            if kind == "data-fin":   # two chunks, the second one well after the first
+                conns[0]["chunks"] = [[150, 40], [700, -1]]
+            hists.append({"class": kind + "-mid-check-epoch", "conns": conns, "epochs": [rng.randrange(2500, 4500)], "hammer": False})
+        # the GeoIP database fails to answer for some peers (its country lookup, or its ASN lookup): they
+        # are probes like all others
+        conns = []
+        for i, (kind, ge) in enumerate((("silent-timeout", "cc"), ("data-timeout", "asn"), ("noregs-data-timeout", "cc"), ("silent-fin", "asn"),
+                                        ("exhaust-timeout", "cc"), ("data-rst", "cc"), ("silent-timeout", ""))):
+            c = conn(kind, 60 * i, geo=geos[i % 3], t_end=rng.randrange(800, 3000))
+            c["geo_err"] = ge
+            conns.append(c)
+        hists.append({"class": "geo-error", "conns": conns, "epochs": [rng.randrange(400, 700), rng.randrange(3100, 4500)], "hammer": False})
         # the same ends without an epoch in between (control), all in one history
         hists.append({"class": "no-epoch", "epochs": [], "hammer": False,
                       "conns": [conn(k, 40 * i, t_end=rng.randrange(500, 2500)) for i, k in enumerate(HKINDS)]})
@@ -450,6 +471,7 @@ def hist_situations(h, hr):
     out = []
     last = {}          # conn -> index of its previous event
     nread = {}
+    e_prev_n = {}
     epochs = [i for i, e in enumerate(hr["events"]) if e["ev"] == "epoch"]
     for i, e in enumerate(hr["events"]):
         c = e["conn"]
@@ -457,7 +479,11 @@ def hist_situations(h, hr):
             last[c], nread[c] = i, 0
             continue
         if e["ev"] == "epoch":
+            if e.get("mid"):
+                out.append("sit:mid-check/%s" % ("first" if nread.get(c, 0) == e_prev_n.get(c, 0) else "later"))
             continue
+        if e["ev"] == "read":
+            e_prev_n[c] = e["n"]
         after = any(last.get(c, -1) < x < i for x in epochs)
         spec = h["conns"][c]
         cc = "cc" if spec["cc"] else "nocc"
@@ -581,9 +607,22 @@ ERRK = {"timeout": 0, "eof": 1, "closed": 1, "rst": 2}
 def hist_term(h, hr, ts):
     evs = []
     exact = not h["hammer"] and not hr["hung"]
-    for e in hr["events"]:
+    events = hr["events"]
+    split = {}     # index of a read event -> index of the epoch forced inside its check window
+    lastread = {}
+    for i, e in enumerate(events):
+        if e["ev"] == "read":
+            lastread[e["conn"]] = i
+        elif e["ev"] == "epoch" and e.get("mid") and e["conn"] in lastread:
+            split[lastread[e["conn"]]] = i
+    tail = {v: k for k, v in split.items()}
+    for i, e in enumerate(events):
+        if i in split:
+            evs.append("RRead1 %s %s" % (gN(e["conn"]), gN(e["n"])))
+            continue
         if e["ev"] == "open":
-            evs.append("ROpen %s %s %s %s %s %s" % (gN(e["conn"]), gN(e["asn"]), gcc(e["cc"]), gbool(e["v4"]), gN(e["tracked"]), gN(e["nts"])))
+            evs.append("ROpen %s %s %s %s %s %s" % (gN(e["conn"]), "None" if e.get("asn_err") else "(Some %s)" % gN(e["asn"]),
+                                                   "None" if e.get("cc_err") else "(Some %s)" % gcc(e["cc"]), gbool(e["v4"]), gN(e["tracked"]), gN(e["nts"])))
         elif e["ev"] == "read":
             calls = glist(e.get("calls") or [], lambda cl: "(%s, %s)" % (gN(ts.index(cl["t"])), gN(ANSWER.get(cl["res"], 3))))
             evs.append("RRead %s %s %s" % (gN(e["conn"]), gN(e["n"]), calls))
@@ -593,6 +632,9 @@ def hist_term(h, hr, ts):
             if not e.get("quiesced"):
                 exact = False
             evs.append("REpoch %s" % snap_term(e["snap"]))
+            if i in tail:
+                r = events[tail[i]]
+                evs.append("RRead2 %s %s" % (gN(r["conn"]), glist(r.get("calls") or [], lambda cl: "(%s, %s)" % (gN(ts.index(cl["t"])), gN(ANSWER.get(cl["res"], 3))))))
     if any(c.get("panic") for c in hr["conns"]):
         exact = exact   # a recovered panic leaves the counters half updated: the comparison is expected to fail, the oracle has the case
     return "(Build_hist_case %s %s %s)" % (glist(evs, lambda x: "(%s)" % x), snap_term(hr["final"]), gbool(exact))
@@ -610,17 +652,26 @@ def run(ctx):
         "promptly until then, is measured on scripted connections with tolerances (-0/+1.5 s for the return, 1 s for a read)",
         "peer-initiated FIN/RST is outside the property's quantifier (content, length, pacing of data)",
         "kernel-level behaviour (ACKs, window) is named, not modelled: the handler's Reads are the observable",
+        "the GeoIP database is a parameter of the model; hypothesis geo_total: its lookups of IP addresses do not fail (a failing lookup makes the "
+        "handler return at once - C03_immediate_return_iff); the stand-in of the tie answers every lookup",
+        "a panic in a connection goroutine is taken to end the station process (nothing in cmd/application recovers it): the driver recovers it "
+        "and the oracle counts every connection open at that instant as closed early",
+        "int64 overflow of the statistics counters is not modelled",
     ]
     ctx.cov["trusted_base"] = [
         "Coq 8.16.1 kernel (coqc; coqchk in the thorough tier); vm_compute for evaluating the model on probes; no native_compute",
         "no axioms: every theorem prints 'Closed under the global context'",
         "hand-written model coq/C04/Model.v + coq/C03/Model.v tied to /repo by the correspondence run (drivers, scripted net.Conn, emitter trusted)",
-        "Go runtime timers and the scripted connection's deadline implementation",
+        "Go runtime timers and the scripted connection's deadline implementation; in the history lane the kernel's loopback TCP and the real netpoll deadline",
+        "hand-written models coq/C03/StatsModel.v (connStats) and coq/C03/ConnModel.v (addresses, GeoIP, composition) tied by chk_hist / chk3a",
     ]
     ctx.cov["rule"] = ("probe streams 0-16 KiB: random at every threshold length, protocol look-alikes, every static prefix + garbage, genuine "
                        "flights with one bit flipped / one byte short / of unregistered or unvalidated clients, under arbitrary segmentation and "
-                       "pacing, against registries none / invalid-only / one / many; non-trivial = hash-distinct (kind, registry, script shape) "
-                       "probe that ran through the real handler for its whole deadline")
+                       "pacing, against registries none / invalid-only / one / many, crossed with the peer-address forms (IPv4 4-byte / ::ffff: form, "
+                       "global / ULA / loopback IPv6; TCP, UDP and string address objects) and IPv4 / IPv6 phantoms; plus histories of 3-14 connections on "
+                       "real loopback sockets (every way a connection ends) interleaved with statistics epochs (between any two steps of a connection, "
+                       "inside the check window, unsynchronised every 2 ms); non-trivial = hash-distinct (kind, registry, peer address, script shape) "
+                       "probe / history connection that ran through the real handler until it returned")
     t0 = time.time()
 
     def lap(what):
@@ -628,7 +679,7 @@ def run(ctx):
     # coq/C04 holds the shared handler model; it is part of this property's project (extra_dirs) but
     # is cleaned and re-checked by C04's own run, not here (the two checks may run side by side)
     ctx.extra_dirs = ["C04"]
-    ctx.coq_props(props_files=["C03/Props.v", "C03/Run.v", "C03/Examples.v"])
+    ctx.coq_props(props_files=["C03/Props.v", "C03/Run.v", "C03/Examples.v", "C03/ExamplesStats.v"])
     bad = ctx.hygiene(["C04"])
     if bad:
         ctx.broken("hygiene", "forbidden constructs in coq/C04: %s" % bad[:5])
@@ -719,7 +770,16 @@ def run(ctx):
         if len(set(round(d) for d in Ds)) < 2 or max(Ds) - min(Ds) < 100:
             ctx.fail("deadline-not-randomised", "the classification deadline is the same (%.0f ms) on %d connections" % (Ds[0], len(Ds)),
                      {"deadlines_ms": sorted(set(round(d) for d in Ds))[:10]})
-        ctx.cov["deadlines_ms"] = {"min": min(Ds), "max": max(Ds), "distinct": len(set(round(d) for d in Ds))}
+        ctx.cov["deadlines_ms"] = {"min": min(Ds), "max": max(Ds), "distinct": len(set(round(d) for d in Ds)), "n": len(Ds)}
+        # the statistical tie of C03_deadline_draw: a uniform draw over [5 s, 10 s) leaves a quarter of that
+        # range empty among n independent deadlines with probability <= 4 * 0.75^n (n = 100: 1.3e-12)
+        if len(Ds) >= 100:
+            q = [sum(1 for d in Ds if 5000 + 1250 * i <= d < 5000 + 1250 * (i + 1) + (1 if i == 3 else 0)) for i in range(4)]
+            ctx.cov["deadlines_ms"]["quarters"] = q
+            if min(q) == 0:
+                ctx.fail("deadline-not-uniform", "none of %d classification deadlines falls into [%d ms, %d ms): the deadline is not drawn from the "
+                         "whole 5-10 s range (per quarter: %s)" % (len(Ds), 5000 + 1250 * q.index(0), 6250 + 1250 * q.index(0), q),
+                         {"deadlines_ms": sorted(round(d) for d in Ds)[:40], "per_quarter": q})
     for i in ((0, len(allc) // 2, len(allc) - 1) if allc else ()):
         r = allr[i]
         ctx.sample({"kind": allc[i]["kind"], "regs": allc[i].get("regs_name"), "script": r.get("script"),
@@ -732,6 +792,8 @@ def run(ctx):
                           + [k + "@peer-v6" for k in ("random", "lookalike", "static", "flip", "short", "unregistered", "unvalidated", "loworder", "manychunks", "drain", "late", "peerclose")]
                           # the history lane: every way a connection ends, with an epoch between its previous step and its end
                           + ["hist:%s-across-epoch/ok" % k for k in HKINDS] + ["hist:no-epoch/ok", "hist:mix/ok", "hist:hammer/ok"]
+                          + ["hist:%s-mid-check-epoch/ok" % k for k in ("data-timeout", "data-fin", "exhaust-timeout", "exhaust-rst", "match")]
+                          + ["sit:mid-check/first", "sit:mid-check/later", "hist:geo-error/ok"]
                           + ["hist-peer:v4/real", "hist-peer:v6/tcp", "hist-peer:v4/tcp4"]
                           + ["sit:eof/0B/cc@epoch", "sit:timeout/0B/cc@epoch", "sit:rst/0B/cc@epoch", "sit:eof/data/cc@epoch", "sit:rst/data/cc@epoch",
                              "sit:timeout/data/cc@epoch", "sit:eof/noregs/cc@epoch", "sit:timeout/noregs/cc@epoch", "sit:timeout/drained/cc@epoch",
